@@ -202,6 +202,9 @@ def check(ctx):
         runner.run_job(ctx, _job(ctx, name, t))
         paths.append(t)
     st = _stats(paths)
+    # in composition (whole DHCPv6 chains, Conv6): the prefix plugin behind / in front of server_id, file and dns
+    from . import fam_conv
+    st.update(fam_conv.run6(ctx))
     hollow = [k for k, v in st["alphabet_realised"].items() if v["sent"] > 0 and v["in_claimed_shape"] == 0]
     if hollow:
         raise Infra("letters of the hint alphabet that never reached the plugin in the shape they claim: %s" % hollow)
@@ -224,4 +227,8 @@ def check(ctx):
 
 
 def replay(ctx, path):
+    meta = json.load(open(os.path.join(path, "meta.json")))
+    if meta.get("family") == "conv6":
+        from . import fam_conv
+        return fam_conv.replay6(ctx, path)
     return runner.replay_dir(ctx, path, _job(ctx, "replay", None))
